@@ -115,6 +115,10 @@ func c19Selection(j int) (*shape, string) {
 		sh.sels = []*sel{{kind: selSpread, frag: "F"}, {kind: selField, name: "a"}}
 	}
 	doc := "subscription{ev" + renderSels(sh.sels) + "}"
+	if j == 1 || j == 3 {
+		// the root field reached through an inline fragment on the subscription type
+		doc = "subscription{... on Subscription{ev" + renderSels(sh.sels) + "}}"
+	}
 	for _, name := range sh.order {
 		f := sh.frags[name]
 		doc += " fragment " + name + " on " + f.cond + renderSels(f.sub)
